@@ -5,7 +5,7 @@
 From Coq Require Extraction.
 From Coq Require Import ExtrOcamlBasic ExtrOcamlNatBigInt ExtrOcamlZBigInt.
 From Coq Require Import ZArith.
-From Sfs Require Import Index ArrayM Scalar Spectrum Project Create SampleParse Stat Npy Text Container Stream Ext Frames.
+From Sfs Require Import Index Word ArrayM Scalar Spectrum Project Create SampleParse Stat Npy Text Container Stream Ext Frames.
 
 Extraction Blacklist List String Int Big_int_Z.
 
@@ -31,6 +31,7 @@ Definition qc_den (q : Qc) : positive := Qden (this q).
 Extraction "model.ml"
   Index.elements Index.strides Index.flat Index.unflat Index.index_from_flat
   Index.index_sum_from_flat Index.indices Index.inb Index.mirror
+  Word.array_new_w Word.strides_w Word.flat_index_w
   ArrayM.arr_new ArrayM.get ArrayM.set ArrayM.get_axis ArrayM.viter_new ArrayM.vnext ArrayM.vlen
   ArrayM.view_items ArrayM.view_to_array ArrayM.axis_next ArrayM.axis_len ArrayM.ind_next ArrayM.ind_len
   z_sum_axis qc_of qc_num qc_den
